@@ -461,7 +461,7 @@ class RangeConstraint(Constraint):
         # Convert value to numeric type
         try:
             numeric_value = float(value) if isinstance(value, int | float) else float(value)
-        except (ValueError, TypeError):
+        except (ValueError, TypeError, OverflowError):
             return ValidationResult(
                 valid=False,
                 errors=[
